@@ -51,6 +51,8 @@ pub struct CollectorStats {
     pub active: Vec<(usize, usize, usize)>,
     /// Number of registered per-thread receivers.
     pub receivers: usize,
+    /// Number of traces noted as cancelled while their cancel signal is parked on its thread.
+    pub parked_cancels: usize,
 }
 
 /// Runs one collector cycle on the calling thread.
